@@ -164,6 +164,25 @@ func c19NewWorld(t *testing.T, withServer bool) *c19World {
 		e.Files["tile/data/.DS_Store"] = c19File{Data: c19Unique(r, "decoy ds_store "+e.Short), Kind: "decoy:dot"}
 		e.Files["issuer/index.html"] = c19File{Data: c19Unique(r, "<html>decoy index "+e.Short), Kind: "decoy:index"}
 		e.Files["checkpoint.bak"] = c19File{Data: c19Unique(r, "decoy backup "+e.Short), Kind: "decoy:bak"}
+		// tiles of a very large log: indexes of a million and more have two or three x-groups in their path (the
+		// server treats whatever file sits at a layout path as that layout object)
+		for _, p := range []string{"tile/data/x001/x234/567", "tile/names/x001/x234/567", "tile/data/x004/x000/x000/001.p/17",
+			"tile/names/x004/x000/x000/001.p/17", "tile/0/x001/x234/567", "tile/data/x999/999"} {
+			if _, ok := e.Files[p]; !ok {
+				kind := "hash"
+				data := c19Unique(r, "large-index tile "+p+" "+e.Short)
+				switch {
+				case strings.HasPrefix(p, "tile/data/"):
+					kind, data = "data", c19Gzip(data)
+				case strings.HasPrefix(p, "tile/names/"):
+					kind, data = "names", c19Gzip(data)
+				}
+				if strings.Contains(p, ".p/") {
+					kind += "-partial"
+				}
+				e.Files[p] = c19File{Data: data, Kind: kind}
+			}
+		}
 		evil := sha256.Sum256([]byte("evil"))
 		e.Symlinks["issuer/evil"] = "../../outside/secret.txt"
 		e.Symlinks["issuer/"+hex.EncodeToString(evil[:])] = "../../outside/secret.txt"
